@@ -129,11 +129,26 @@ type world struct {
 	released     map[int]bool
 	stall        *Stall
 	stallRel     bool
+	// configurations (script prefix cfg=...): none of them changes what the machine predicts
+	age          bool          // P has a context age shorter than the time handlers are held
+	pcloseExpect bool          // the session was healthy (so indexed) when Peer.Close() was called
+	pcloseRet    int32         // Peer.Close() has returned
+	keep         []interface{} // the displaced session's ends (kept reachable)
 }
 
-func newWorld() *world {
-	w := &world{pw: newWork(), qw: newWork(), released: map[int]bool{}}
-	w.P = erpc.NewPeer(erpc.PeerConfig{})
+const (
+	ctxAge  = 40 * time.Millisecond  // context age of the closing peer in configuration "age"
+	ageWait = 110 * time.Millisecond // how long a Close() is left alone there: well beyond the age
+	takeID  = "user-1"
+)
+
+func newWorld(cfgs map[string]bool) *world {
+	w := &world{pw: newWork(), qw: newWork(), released: map[int]bool{}, age: cfgs["age"]}
+	if w.age {
+		w.P = erpc.NewPeer(erpc.PeerConfig{DefaultContextAge: ctxAge})
+	} else {
+		w.P = erpc.NewPeer(erpc.PeerConfig{})
+	}
 	w.Q = erpc.NewPeer(erpc.PeerConfig{})
 	w.P.RouteCall(new(T))
 	w.Q.RouteCall(new(T))
@@ -141,12 +156,33 @@ func newWorld() *world {
 	workOf[w.P] = w.pw
 	workOf[w.Q] = w.qw
 	workMu.Unlock()
+	var old erpc.Session
+	if cfgs["take"] {
+		// an older session of the same user holds the id the session under test will take over
+		pr0, qc0, pc0 := ServeScriptPair(w.P, w.Q, "q:0", "p:0")
+		old = pr0.SrvSess
+		old.SetID(takeID)
+		w.keep = append(w.keep, pr0, qc0, pc0)
+	}
 	pr, qc, pc := ServeScriptPair(w.P, w.Q, "q:1", "p:1")
 	w.ps, w.qs = pr.SrvSess, pr.CliSess
 	w.pconn, w.qconn = pc, qc
+	if old != nil {
+		w.ps.SetID(takeID) // closes the older session
+		WaitUntil(eventWatchdog, func() bool { return !old.Health() && !pr0Healthy(w.keep) })
+	}
 	w.g = NewGateCtl()
 	w.g.Arm("call.prereply", w.ps)
 	return w
+}
+
+func pr0Healthy(keep []interface{}) bool {
+	for _, k := range keep {
+		if p, ok := k.(*Pair); ok && p.CliSess != nil {
+			return p.CliSess.Health()
+		}
+	}
+	return false
 }
 
 func (w *world) destroy() {
@@ -187,6 +223,9 @@ func busy(d []string) bool {
 	for _, g := range d {
 		if !strings.Contains(g, "henrylee2cn/erpc") || strings.Contains(g, "GoroutineDump") {
 			continue
+		}
+		if strings.Contains(g, "GoPool).MustGo") {
+			continue // waiting for a slot of the goroutine pool (it polls)
 		}
 		nl := strings.IndexByte(g, '\n')
 		if nl < 0 {
@@ -279,10 +318,21 @@ func (w *world) closeLike(f func(), sess bool) {
 }
 
 func runCase(st *Stats, idx int, script []string) (string, string) {
-	w := newWorld()
+	cfgs := map[string]bool{}
+	human := strings.Join(script, " ")
+	for len(script) > 0 && strings.HasPrefix(script[0], "cfg=") {
+		cfgs[strings.SplitN(script[0][4:], ":", 2)[0]] = true
+		if strings.HasPrefix(script[0], "cfg=pool:") {
+			var n int
+			fmt.Sscanf(script[0][9:], "%d", &n)
+			erpc.SetGopool(n, 0)
+			defer erpc.SetGopool(1<<20, 0)
+		}
+		script = script[1:]
+	}
+	w := newWorld(cfgs)
 	defer w.destroy()
 	var ins, outs []string
-	human := strings.Join(script, " ")
 	enteredBefore := map[int]bool{} // incoming calls whose handler was entered before the first Close()
 	issuedBefore := map[int]bool{}  // outgoing calls issued before the first Close()
 	lost := false
@@ -360,12 +410,16 @@ func runCase(st *Stats, idx int, script []string) (string, string) {
 					w.closeLike(func() { w.ps.Close() }, true)
 				} else {
 					w.pclosed = true
-					w.closeLike(func() { w.P.Close() }, false)
+					w.pcloseExpect = w.ps.Health()
+					w.closeLike(func() { w.P.Close(); atomic.StoreInt32(&w.pcloseRet, 1) }, false)
 					in = VL(VS("pclose"))
 				}
 			} else {
 				w.closeLike(func() { w.ps.Close() }, true)
 				in = VL(VS(f[0]))
+			}
+			if w.age {
+				time.Sleep(ageWait) // the handlers entered before outlive the context age
 			}
 		case "relrun":
 			for k := range w.ins {
@@ -418,6 +472,21 @@ func runCase(st *Stats, idx int, script []string) (string, string) {
 				c := w.ins[k]
 				if atomic.LoadInt32(&c.done) != 1 || c.cls != "ok" {
 					st.Fail(idx, "entered-reply", fmt.Sprintf("a Session.Close() call has returned but incoming call %d (handler entered before Close) has no genuine reply: done=%d class=%s", k, c.done, c.cls), human)
+				}
+			}
+		}
+		// C08: Peer.Close() has returned => a session that was healthy (hence indexed) when it was
+		// called is closed and every handler entered before has delivered its genuine reply
+		if atomic.LoadInt32(&w.pcloseRet) == 1 && w.pcloseExpect {
+			if stn != "active-closed" && stn != "passive-closed" {
+				st.Fail(idx, "peer-close", "Peer.Close() has returned but its healthy session was left in status "+stn, human)
+			}
+			if !lost {
+				for k := range enteredBefore {
+					c := w.ins[k]
+					if atomic.LoadInt32(&c.done) != 1 || c.cls != "ok" {
+						st.Fail(idx, "entered-reply", fmt.Sprintf("Peer.Close() has returned but incoming call %d (handler entered before) has no genuine reply: done=%d class=%s", k, c.done, c.cls), human)
+					}
 				}
 			}
 		}
@@ -599,7 +668,24 @@ func genScript(cfg *RunCfg, st *Stats, window bool) []string {
 	if closes == 0 {
 		s = append(s, "close")
 	}
-	return drain(s, nout)
+	s = drain(s, nout)
+	if !window {
+		switch k := r.Intn(10); {
+		case k < 2:
+			s = append([]string{"cfg=take"}, s...)
+		case k == 2:
+			s = append([]string{"cfg=age"}, s...)
+		}
+	}
+	return s
+}
+
+func windowScripts() [][]string {
+	return [][]string{
+		drain([]string{"in", "close", "push", "out", "push"}, 1),
+		drain([]string{"in", "relrun", "close", "push", "out"}, 1),
+		drain([]string{"in", "pclose", "push", "close2", "push"}, 0),
+	}
 }
 
 func fixedScripts() [][]string {
@@ -626,11 +712,35 @@ func fixedScripts() [][]string {
 	scripts = append(scripts, drain([]string{"in", "in", "relrun", "relrun", "stallw", "relpre", "relpre", "close", "relw"}, 0))
 	scripts = append(scripts, drain([]string{"in", "in", "relrun", "relrun", "stallw", "relpre", "close", "relpre", "relw"}, 0))
 	scripts = append(scripts, drain([]string{"in", "relrun", "stallw", "out", "relpre", "close", "relw", "qrep:0"}, 1))
-	// calls and pushes inside the closing window
+	// calls and pushes inside the closing window (the three scripts of -mode window)
 	scripts = append(scripts, drain([]string{"in", "close", "push", "out", "push"}, 1))
 	scripts = append(scripts, drain([]string{"in", "relrun", "close", "push", "out"}, 1))
 	scripts = append(scripts, drain([]string{"in", "pclose", "push", "close2", "push"}, 0))
+	// configurations of the closing peer that must not change anything: a context age the held
+	// handlers outlive, an id taken over from an older session of the same peer
+	for _, c := range []string{"cfg=age", "cfg=take"} {
+		for _, kind := range [][]string{{"close"}, {"pclose"}} {
+			for _, pos := range []int{1, 2, 3} {
+				sc := append([]string{c}, base[:pos]...)
+				sc = append(sc, kind...)
+				sc = append(sc, base[pos:]...)
+				scripts = append(scripts, drain(sc, 1))
+			}
+		}
+	}
+	scripts = append(scripts, drain([]string{"cfg=age", "cfg=take", "in", "in", "relrun", "pclose", "push"}, 0))
 	return scripts
+}
+
+// poolScripts: the goroutine pool is exactly used up (two readers and the held handlers) when
+// Peer.Close() is called. Oracle-only: the machine has no pool, so these timelines are not sent
+// to the model (until a slot is free Peer.Close() has not begun to close the session).
+func poolScripts() [][]string {
+	return [][]string{
+		drain([]string{"cfg=pool:3", "in", "pclose"}, 0),
+		drain([]string{"cfg=pool:4", "in", "in", "pclose"}, 0),
+		drain([]string{"cfg=pool:4", "in", "in", "relrun", "pclose", "relpre"}, 0),
+	}
 }
 
 func main() {
@@ -643,7 +753,7 @@ func main() {
 	distinct := DistinctSet{}
 	scripts := fixedScripts()
 	if *mode == "window" {
-		scripts = scripts[len(scripts)-3:]
+		scripts = windowScripts()
 	}
 	for len(scripts) < cfg.N {
 		scripts = append(scripts, genScript(cfg, st, *mode == "window"))
@@ -660,7 +770,14 @@ func main() {
 			st.Samples = append(st.Samples, key)
 		}
 	}
-	st.Evaluations = len(scripts)
+	if *mode != "window" {
+		for i, sc := range poolScripts() {
+			runCase(st, len(scripts)+i, sc)
+			distinct.Add(strings.Join(sc, " "))
+		}
+		st.Evaluations = len(poolScripts())
+	}
+	st.Evaluations += len(scripts)
 	st.DistinctNontrivial = len(distinct)
 	st.Write(cfg, cw)
 }
